@@ -1576,6 +1576,38 @@ class Interp:
                 f = min if last == "min" else max
                 self.set_dest(st, dest, (), f(vals[0][1], vals[1][1]), f(vals[0][2], vals[1][2]), vals[0][3] | vals[1][3], at, None, dty)
             return "pure"
+        if p == "core::iter::traits::iterator::Iterator::count" and len(args) == 1 and full.startswith(("<core::iter::adapters::filter::Filter<core::slice::iter::Iter<", "<core::slice::iter::Iter<")):
+            # `[a, b, c, d].iter().filter(pred).count()`: at most the length of the fixed-size array that is walked
+            import re as _re
+            n_arr = None
+            pl_ = op_place(args[0])
+            for _i in range(8):
+                if pl_ is None:
+                    break
+                m_ = _re.search(r"\[[^\[\];]+; (\d+)\]$", str(pl_.get("ty") or "").strip())
+                if m_ and str(pl_.get("ty")).lstrip("&").startswith("["):
+                    n_arr = int(m_.group(1))
+                    break
+                sd_ = self.body.single_def(pl_["l"]) if not [x for x in pl_["p"] if x != "deref"] else None
+                if sd_ is None:
+                    break
+                if sd_[2] == "call":
+                    a0 = sd_[3]["args"][0] if sd_[3].get("args") else None
+                    lastc = strip_generics(sd_[3]["callee"].get("path") or "").split("::")[-1]
+                    if lastc not in ("filter", "iter", "into_iter", "copied", "cloned", "by_ref") or a0 is None:
+                        break
+                    pl_ = op_place(a0)
+                else:
+                    rv_ = sd_[3]
+                    pl_ = rv_.get("place") if rv_["k"] == "ref" else (op_place(rv_["a"]) if rv_["k"] in ("use", "cast") else None)
+                    if rv_["k"] == "ref" and pl_ is not None:
+                        m_ = _re.fullmatch(r"\[[^\[\];]+; (\d+)\]", str(self.body.local_ty(pl_["l"])).strip()) if not pl_["p"] else None
+                        if m_:
+                            n_arr = int(m_.group(1))
+                            break
+            if n_arr is not None:
+                self.set_dest(st, dest, (), 0, n_arr, frozenset(["C"]), at, None, "usize")
+                return "pure"
         if p == "core::mem::size_of":
             n = {"u8": 1, "i8": 1, "u16": 2, "i16": 2, "u32": 4, "i32": 4, "u64": 8, "i64": 8}.get((t["callee"].get("targs") or [""])[0])
             if n:
